@@ -3,6 +3,7 @@ package props
 import (
 	"bytes"
 	"fmt"
+	"io"
 	"sync"
 
 	"github.com/ulikunitz/lz"
@@ -38,6 +39,7 @@ func (p *c13prop) Plan(tier string, seed int64) []core.Segment {
 		if t != "GSAP" && t != "OSAP" {
 			segs = append(segs, core.Segment{Kind: "margin:" + t, N: 1500 * m})
 		}
+		segs = append(segs, core.Segment{Kind: "wrapreset:" + t, N: 600 * m})
 	}
 	reps := int64(1)
 	if tier == "thorough" {
@@ -142,6 +144,32 @@ func (p *c13prop) Gen(kind string, idx int64, seed int64, tier string) core.Case
 		if class == "reset" {
 			cc.H1 = GenOps(r, 10+r.Intn(60), w)
 		}
+		if class == "wrapreset" {
+			// a WrappedParser that served a first stream (left after some
+			// blocks, at io.EOF, or after its reader failed for good) gets a
+			// new reader through Reset and must then behave like a new
+			// WrappedParser around a new parser
+			if c.BufferSize > 300 {
+				c.BufferSize = 16 + r.Intn(280)
+				c.ShrinkSize = r.Intn(c.BufferSize)
+			}
+			cc.Cfg = c
+			cc.S1 = cc.S1[:len(cc.S1)%700]
+			cc.S2 = cc.S2[:len(cc.S2)%700]
+			plan1 := GenReadPlan(r, false)
+			end := r.Intn(4) // 0 EOF reached, 1 left after some calls, 2 reader fails for good, 3 one-shot error
+			switch end {
+			case 2:
+				for i := 0; i < 6; i++ {
+					plan1 = append(plan1, RStep{N: r.Intn(3), Err: 2})
+				}
+			case 3:
+				plan1 = append(plan1, RStep{N: r.Intn(20), Err: 2})
+			}
+			cc.H1 = []POp{{K: "wparse", A: r.Intn(2), B: end, C: 1 + r.Intn(12), Steps: plan1}}
+			cc.H2 = []POp{{K: "wparse", A: r.Intn(2), Steps: GenReadPlan(r, false)}}
+			return core.MkCase(p.id, kind, idx, seed, tier, cc)
+		}
 		if class == "margin" {
 			// the hash parsers load 8 bytes at every position, also from the
 			// margin behind the end of the data, which holds the bytes of the
@@ -173,12 +201,31 @@ func (p *c13prop) Gen(kind string, idx int64, seed int64, tier string) core.Case
 				cc.H1 = append(cc.H1, POp{K: "parse"})
 			}
 			cc.S2 = gen.Family(r, []string{"rand2", "rand2", "rand3", "tworuns"}[r.Intn(4)], 300, c.Hint())
+			drain := 0
 			reset := POp{K: "reset", A: 0}
 			if r.Intn(2) == 0 {
 				reset = POp{K: "reset", A: 2, B: r.Intn(20), C: r.Intn(20)}
 			}
+			if r.Intn(2) == 0 {
+				// the previous life got its data through Reset(data) without
+				// spare capacity (the buffer allocates exactly len+7 bytes);
+				// the new life starts with a slice that is 0..8 bytes longer
+				// and has no spare capacity either
+				l1 := 1 + r.Intn(c.BufferSize-9)
+				cc.H1 = []POp{{K: "reset", A: 1, B: l1}}
+				for i := 0; i < 1+l1/c.BlockSize; i++ {
+					cc.H1 = append(cc.H1, POp{K: "parse"})
+				}
+				reset = POp{K: "reset", A: 1, B: l1 + r.Intn(9)}
+				drain = 1 + (l1+8)/c.BlockSize
+			}
 			cc.H2 = []POp{reset}
-			for len(cc.H2) < 90 {
+			for i := 0; i < drain; i++ {
+				// parse the data of the Reset up to its end before anything
+				// is written
+				cc.H2 = append(cc.H2, POp{K: "parse", A: []int{0, 0, 1}[r.Intn(3)]})
+			}
+			for n := len(cc.H2) + 90; len(cc.H2) < n; {
 				cc.H2 = append(cc.H2, POp{K: "write", B: 1 + r.Intn(6)})
 				for j, np := 0, 1+r.Intn(3); j < np; j++ {
 					op := POp{K: "parse"}
@@ -387,6 +434,74 @@ func (p *c13prop) Run(c *core.Case, st *core.Stats) []core.Violation {
 		_, rest := splitKind(c.Kind)
 		class, _ = splitKind(rest)
 	}
+	if class == "wrapreset" {
+		run := func(used bool) ([]string, error) {
+			ps, err := NewParserFor(cc.Cfg)
+			if err != nil {
+				return nil, err
+			}
+			var log []string
+			var blk lz.Block
+			rd2 := &planReader{data: cc.S2, steps: cc.H2[0].Steps}
+			var wp *lz.WrappedParser
+			if used {
+				h := cc.H1[0]
+				rd1 := &planReader{data: cc.S1, steps: h.Steps}
+				wp = lz.Wrap(rd1, ps.P)
+				if h.B == 2 {
+					rd1.failAfterPlan = true
+				}
+				errs := 0
+				for i := 0; i < 5000; i++ {
+					if h.B == 1 && i >= h.C {
+						break
+					}
+					_, err := wp.Parse(&blk, h.A)
+					if err == io.EOF {
+						break
+					}
+					if err != nil {
+						if errs++; errs >= 2 {
+							break
+						}
+					}
+				}
+				wp.Reset(rd2)
+			} else {
+				wp = lz.Wrap(rd2, ps.P)
+			}
+			for i := 0; i < 5000; i++ {
+				n, err := wp.Parse(&blk, cc.H2[0].A)
+				log = append(log, fmt.Sprintf("%d n=%d err=%s seqs=%v lits=%x", i, n, errName(err), blk.Sequences, blk.Literals))
+				if err != nil {
+					break
+				}
+			}
+			return log, nil
+		}
+		var a, b []string
+		var nerr error
+		if pv := call(func() { a, nerr = run(true) }); pv != nil {
+			return []core.Violation{core.V(c, "panic", "%s cfg=%+v: reused WrappedParser: %s", cc.Cfg.Type, cc.Cfg, fmtPanic(pv))}
+		}
+		if nerr != nil {
+			st.Inc("config_rejected")
+			return nil
+		}
+		if pv := call(func() { b, _ = run(false) }); pv != nil {
+			return []core.Violation{core.V(c, "panic", "%s cfg=%+v: new WrappedParser: %s", cc.Cfg.Type, cc.Cfg, fmtPanic(pv))}
+		}
+		st.Inc("pairs_compared")
+		st.Inc("wrapped_pairs_compared")
+		st.Inc(fmt.Sprintf("wrapped_pairs_first_stream_end_%d", cc.H1[0].B))
+		if at, why := diffLogs(a, b); at >= 0 {
+			return []core.Violation{core.V(c, "reset-differs-from-fresh", "%s cfg=%+v: a WrappedParser reused through Reset(reader) (A; first stream ended in mode %d: 0 io.EOF, 1 left early, 2 reader failed for good, 3 one-shot error) behaves differently from a new WrappedParser around a new parser (B); %s", cc.Cfg.Type, cc.Cfg, cc.H1[0].B, why)}
+		}
+		if len(b) > 1 {
+			st.NonTrivial(c)
+		}
+		return nil
+	}
 	main := &PCase{Cfg: cc.Cfg, Stream: cc.S2, Ops: cc.H2}
 	var pre *PCase
 	if class == "reset" || class == "zerostart" || class == "margin" {
@@ -432,5 +547,5 @@ func init() {
 	core.Register(&c13prop{base{id: "C13", level: "exploration",
 		rule:        "reset clause: for all 7 parsers a used parser (random prior history H1 with several fills/Shrinks, small alphabets, long hash inputs and few hash bits so that stale table entries would verify against new data) and a new parser both execute Reset(x) (x nil or data on the copy/alias/huge-capacity paths, each parser with its own copy) followed by the same history H2; ALL observable results of H2 (n, err, blocks with nil == empty, Shrink values, ReadAt/ByteAt answers) are compared; twin clause: two new parsers, same calls; schedule clause: the whole check runs in a -race build, and 32 goroutines drive 32 distinct parser instances (long streams through 16-200 byte buffers, hundreds of Shrinks each) plus a decoder instance each, several rounds; every goroutine's results are compared with the sequential reference run and every race detector report is a violation; non-trivial iff H2 produced a block with a match; distinct = distinct concrete case",
 		assumptions: []string{"buffers <= 1017 bytes so that the read sizes offered to a reader do not depend on the capacity history of the buffer", "the race detector only sees the schedules that occurred"},
-		mandatory:   []string{"pairs_compared", "pairs_with_matches_after_reset", "pairs_reset_with_data", "pairs_reset_nil", "concurrent_rounds"}}})
+		mandatory:   []string{"pairs_compared", "pairs_with_matches_after_reset", "pairs_reset_with_data", "pairs_reset_nil", "concurrent_rounds", "wrapped_pairs_compared", "wrapped_pairs_first_stream_end_2"}}})
 }
